@@ -252,6 +252,9 @@ def run(ctx):
             agg["spelling_cases_rejected_by_parser"] = agg.get("spelling_cases_rejected_by_parser", 0) + 1
             continue
         if res["rejected"]:
+            if res["kind"] in ("cat", "pin"):
+                # hand-written legal projects: one that no longer compiles observes nothing
+                out.inconclusive.append("catalogue project %s is rejected by the compiler: %s" % (res["id"], res["rejected"][-200:]))
             agg["rejected_projects"] += 1
             if len(rejected_examples) < 4:
                 rejected_examples.append({"id": res["id"], "msg": res["rejected"][-300:]})
